@@ -88,7 +88,7 @@ def _tap_robust(variant, fy, fnd, prm):
     f = c05.interp_kernel(variant)
     out_i = np.zeros(fy.size, dtype=np.int16)
     lo = np.zeros(1)
-    lines = {("mad = np.median(np.abs(r_arr[", "u_arr = r_arr /"): ["w_temp", "s"]}
+    lines = {("mad = np.median(np.abs(r_arr[", "u_arr = r_arr /"): ["w_temp", "s", "mad"]}
     with np.errstate(all="ignore"), shim.Tap(f, at_return=["robust_gcv", "robust_weights", "z"], lines=lines) as tap:
         if variant == "ws2dwcv":
             f(fy.astype(float), fnd, np.asarray(prm["llas"], dtype=float), True, out_i, lo)
@@ -126,6 +126,20 @@ def robust_lambda_excused(R, variant, yy, nodata, prm, l1, l2, other):
         if np.any(rg[:, 0] < (1e-9 * scale) ** 2) or wsse < (1e-9 * scale) ** 2 * max(1, int((rw[ok] > 0).sum())):
             R.count("lambda_diff_degenerate")
             return True
+    # a robust pass whose residual scale lies inside the forward-error bound kappa*eps*max|y| of the solve it was taken
+    # from (C01 known-finding regime: a handful of valid cells, lambda ~1e6): the bisquare weights of the two frames are
+    # then different roundings of noise, and so is everything selected with them (same class as in C13)
+    for (fy, fnd), tap in zip(frames, taps):
+        ok = np.isfinite(fy) & (fy != fnd)
+        ymax = max(1.0, float(np.max(np.abs(fy[ok]))))
+        for _, loc in tap.events:
+            wt, s_, mad = loc.get("w_temp"), loc.get("s"), loc.get("mad")
+            if wt is None or s_ is None or mad is None or (np.asarray(wt) > 0).sum() < 2 or not np.isfinite(float(mad)):
+                continue
+            if 0 < float(mad) <= W.cond2(fy.size, np.asarray(wt, dtype=float), float(s_)) * 2.0 ** -53 * ymax:
+                R.count("excluded_ill_conditioned")
+                R.count("robust_scale_in_solver_noise_excluded")
+                return True
     if other is None or any(len(t.events) < 2 for t in taps):
         return False
     evA, evB = taps[0].events, taps[1].events
